@@ -418,3 +418,14 @@ pub fn panic_message(p: &Box<dyn std::any::Any + Send>) -> String {
 pub fn has_nonfinite_field(debug: &str) -> bool {
     debug.contains("inf") || debug.contains("NaN")
 }
+
+/// The same decision when the Debug form might not show every field: a state is also
+/// non-finite if its serialised text carries a `null` AND one of its reported statistics is
+/// an infinity (an empty Min/Max, a histogram with an infinite outer edge). A `null` next to
+/// finite statistics is never excused.
+pub fn nonfinite_state(debug: &str, json: &str, stats: impl Iterator<Item = f64>) -> bool {
+    if has_nonfinite_field(debug) {
+        return true;
+    }
+    json.contains("null") && stats.into_iter().any(|x| x.is_infinite())
+}
